@@ -32,6 +32,54 @@ SCALES = [("int", 2), ("int", 3), ("int", 12), ("int", 1000), ("int", 5280), ("m
 IRR = [("pi",), ("mdiv", ("pi",), ("int", 180)), ("mroot", ("int", 2), 2), ("mpow", ("pi",), 2), ("mmul", ("pi",), ("int", 3))]
 
 
+def mag_spell_map(m):
+    """exponent map -> C++ magnitude expression (independent of how the library would spell it)"""
+    parts = []
+    for b, e in sorted(m.items(), key=lambda kv: str(kv[0])):
+        base = "au::Magnitude<au::Pi>{}" if b == "pi" else f"au::mag<{b}ull>()"
+        if e.denominator != 1:
+            base = f"au::root<{e.denominator}>({base})"
+        parts.append(base if e.numerator == 1 else f"au::pow<{e.numerator}>({base})")
+    return "(" + " * ".join(parts) + ")" if parts else "au::mag<1>()"
+
+
+ROOT_BASES = [2, 3, 5, 7, 10]
+
+
+def gen_equal_mag_list(rnd, by_dim, leaves):
+    """Lists that contain two *distinct types of equal magnitude* which the library's documented tie-breakers
+    separate: a named unit and an anonymous scaling of another named unit (`Yards` vs `Feet * 3`), or two
+    anonymous scalings of different named units with different scale factors (`Feet * 3` vs `Inches * 36`).
+    Two distinct *named* units of equal magnitude are the documented exclusion and are never generated."""
+    dims = [d for d, ns in by_dim.items() if d != () and len(ns) >= 2]
+    for _ in range(40):
+        d = rnd.choice(dims)
+        a, b = rnd.sample(by_dim[d], 2)
+        ma, mb = leaves[a][1], leaves[b][1]
+        if model.ekey(ma) == model.ekey(mb):
+            continue
+        ratio = model.emul(ma, model.einv(mb))       # A = B * ratio
+        if not all(abs(v.numerator) <= 40 and v.denominator <= 3 for v in ratio.values()):
+            continue
+        if rnd.random() < 0.5:
+            items = [(f"au::{a}", ma, a), (f"decltype(au::{b}{{}} * {mag_spell_map(ratio)})", ma, f"{b}*[{a}/{b}]")]
+        else:
+            k = rnd.choice([2, 3, 7, 12])
+            km = model.mag_of_int(k)
+            items = [(f"decltype(au::{a}{{}} * {mag_spell_map(km)})", model.emul(ma, km), f"{a}*{k}"),
+                     (f"decltype(au::{b}{{}} * {mag_spell_map(model.emul(ratio, km))})", model.emul(ma, km), f"{b}*[{k}*{a}/{b}]")]
+        if rnd.random() < 0.5:
+            c = rnd.choice(by_dim[d])
+            sc = rnd.choice(SCALES[:11])
+            mc = model.emul(leaves[c][1], model.mag_eval(sc))
+            if model.ekey(mc) not in {model.ekey(x[1]) for x in items}:
+                items.append((f"decltype(au::{c}{{}} * {model.mag_spell(sc)})", mc, f"{c}*{model.mag_spell(sc)}"))
+        rnd.shuffle(items)
+        if all(rational_ratio(x[1], y[1]) for x in items for y in items):
+            return items
+    return None
+
+
 def gen_list(rnd, by_dim, leaves, units, named_decls, irrational=False):
     """-> list of (type expression, mag, label) of one dimension, pairwise distinct magnitudes"""
     dims = [d for d, ns in by_dim.items() if d != ()]
@@ -40,19 +88,29 @@ def gen_list(rnd, by_dim, leaves, units, named_decls, irrational=False):
     n = rnd.choice([2, 2, 3, 3, 4])
     items = []
     seen_mag = set()
+    idents = []
     tries = 0
+    # a root shared by every member with exponents of both signs in one residue class: the pairwise ratios stay
+    # rational (integer powers of the radicand) while the same prime carries non-integer exponents of opposite sign
+    shared = None
+    if not irrational and rnd.random() < 0.3:
+        k = rnd.choice([2, 2, 3, 4])
+        shared = (("mroot", ("int", rnd.choice(ROOT_BASES)), k), k, rnd.randrange(1, k))
     while len(items) < n and tries < 50:
         tries += 1
         base = rnd.choice(pool)
         bm = leaves[base][1]
         r = rnd.random()
-        if r < 0.35:
+        if r < 0.35 and not shared:
             expr, m, nm = f"au::{base}", bm, base
         else:
             sc = rnd.choice(IRR if (irrational and rnd.random() < 0.5) else SCALES)
             # pi on both sides keeps pairwise ratios rational while the magnitudes themselves are irrational
             if not irrational and rnd.random() < 0.15:
                 sc = ("mmul", sc, ("pi",))
+            if shared:
+                rt, k, c = shared
+                sc = ("mmul", sc, ("mpow", rt, rnd.choice([c, c - k])))
             sm = model.mag_eval(sc)
             m = model.emul(bm, sm)
             if r < 0.7:
@@ -64,6 +122,13 @@ def gen_list(rnd, by_dim, leaves, units, named_decls, irrational=False):
         k = model.ekey(m)
         if k in seen_mag:
             continue
+        # named identities the library will put into one ordered list: the item itself when it is a named type, and the
+        # named base of an anonymous scaled item (CommonUnit's label/simplification machinery sorts the *unscaled* units).
+        # Two distinct named units of equal magnitude are the documented ordering limitation -> never generated.
+        ident = (nm.split("=")[0], k) if (expr.startswith("au::") or expr.startswith("VfN")) else (base, model.ekey(bm))
+        if any(i[1] == ident[1] and i[0] != ident[0] for i in idents):
+            continue
+        idents.append(ident)
         seen_mag.add(k)
         items.append((expr, m, nm))
     if len(items) < 2:
@@ -86,7 +151,7 @@ def run(chk, which="C07"):
         by_dim.setdefault(model.ekey(d), []).append(n)
     by_dim = {d: ns for d, ns in by_dim.items() if len(ns) >= 2}
     n_tu = 16 if tier == "quick" else 64
-    per_tu = 25 if tier == "quick" else 125
+    per_tu = 40 if tier == "quick" else 125
     plans = []
     for ti in range(n_tu):
         rnd = core.rng("c07", tier, ti)
@@ -95,7 +160,10 @@ def run(chk, which="C07"):
         sid = 1
         lists = []
         while len(lists) < per_tu:
-            L = gen_list(rnd, by_dim, leaves, units, decls, irrational=(rnd.random() < 0.15))
+            if rnd.random() < 0.18:
+                L = gen_equal_mag_list(rnd, by_dim, leaves)
+            else:
+                L = gen_list(rnd, by_dim, leaves, units, decls, irrational=(rnd.random() < 0.15))
             if L:
                 lists.append(L)
         for li, L in enumerate(lists):
@@ -184,7 +252,14 @@ def run(chk, which="C07"):
                 if model.ekey(common_mag) != model.ekey(g):
                     chk.violation(f"C07|magnitude|list={desc}", msg=f"common unit magnitude {model.ekey(common_mag)} != base-wise GCD {model.ekey(g)} for [{desc}]")
                 # an input that already is the GCD unit must be the result
-                for i, m in enumerate(mags):
+                qualifying = [i for i, m in enumerate(mags) if model.ekey(m) == model.ekey(g) and i in input_tids]
+                if len(qualifying) > 1:
+                    # several inputs already are the GCD unit (distinct types of equal magnitude): the result must be one of them
+                    if tids and not any(input_tids[i] in tids for i in qualifying):
+                        chk.violation(f"C07|input_not_reused|list={desc}", msg=f"inputs {[L[i][2] for i in qualifying]} already are the common unit of [{desc}] but the result is none of them")
+                    qualifying = []
+                for i in qualifying:
+                    m = mags[i]
                     if model.ekey(m) == model.ekey(g) and i in input_tids and tids and input_tids[i] not in tids:
                         chk.violation(f"C07|input_not_reused|list={desc}|i={i}", msg=f"input {L[i][2]} already is the common unit of [{desc}] but the result is a different type")
             for en, ev in evs:
@@ -205,5 +280,6 @@ def run(chk, which="C07"):
                        "and a share of irrational-ratio lists); every permutation and one repetition variant is reified; the model computes the base-wise GCD magnitude and checks divisibility, joint coprimality, "
                        "input reuse, permutation invariance, nesting equivalence, common_type symmetry; distinct_nontrivial = lists with all-rational ratios that were fully judged")
     chk.notes.update({"lists": nlists, "translation_units": n_tu})
-    chk.assumptions += ["lists never contain two units of equal magnitude (documented ordering limitation, applied conservatively to anonymous units as well)"]
+    chk.assumptions += ["lists never contain two distinct *named* units of equal magnitude (documented ordering limitation); equal-magnitude pairs that the documented tie-breakers separate "
+                        "(named vs anonymous scaled, two anonymous scalings with different factors) are generated on purpose"]
     return chk
